@@ -4,7 +4,7 @@ open Tak Codec
 
 def obsStr (p : Pos) : String :=
   let d := p.winDetails
-  s!"{fmtPos p} over={if d.over then 1 else 0}{colorStr d.winner} hash={p.hashOf.toNat} nmoves={p.allMoves.length}"
+  s!"{fmtPos p} over={if d.over then 1 else 0}{colorStr d.winner} hash={p.hashOf.toNat} nmoves={p.allMoves.length} held=ok"
 
 /-- run one `Tak.Op` on both interpreters; `none` if they disagree about the outcome (never: `C09.heap_refines_pure`) -/
 def stepBoth (st : St) (op : Op) : Option (St × StepRes) :=
